@@ -267,6 +267,12 @@ func parseTextLine(line string) ([]pairT, error) {
 	var out []pairT
 	i := 0
 	for i < len(line) {
+		// pairs are separated by one space; slog leaves a second one behind when it elides a group that
+		// contains only empty groups
+		if line[i] == ' ' {
+			i++
+			continue
+		}
 		eq := strings.IndexByte(line[i:], '=')
 		if eq < 0 {
 			return nil, fmt.Errorf("no '=' in %q", line[i:])
